@@ -8,6 +8,7 @@
 (*   bin    : "crustabri" | "iccma23"   (the ICCMA'23 wrapper)             *)
 (*   file   : "good" | "missing" | "badheader" | "outofrange" |            *)
 (*            "afterblank" | "undeclared" | "argafteratt" | "wrongformat"  *)
+(*            | "bincomment"                                                *)
 (*   pclass : "valid" | "nohyphen" | "badquery" | "badsem" | "trailing"    *)
 (*            | "trailinghyphen" | "padded" | "absent"  (anything but one  *)
 (*            of the 21 problems, up to case, is not a problem)             *)
@@ -21,11 +22,17 @@ Queries == {"SE", "DC", "DS"}
 SemNames == {"GR", "CO", "PR", "ST", "SST", "STG", "ID"}
 Problems == {q \o "-" \o s : q \in Queries, s \in SemNames}      \* the 21 problems of --problems
 
-Outcome(inv) ==
-  IF inv.file # "good" \/ inv.pclass # "valid" \/ inv.enc = "invalid" THEN "refusal"
+OutcomeOn(inv, file) ==
+  IF file # "good" \/ inv.pclass # "valid" \/ inv.enc = "invalid" THEN "refusal"
   ELSE IF inv.kind \in {"DC", "DS"} THEN (IF inv.argc = "valid" THEN "answer" ELSE "refusal")
   ELSE IF inv.argc \in {"absent", "valid"} THEN "answer"          \* SE: a useless argument is only worth a warning
   ELSE "unspecified"                                               \* SE with an argument that does not exist
+(* file "bincomment": a well-formed ICCMA'23 file but for a comment line, before the attacks, that is not valid UTF-8.  Whether that is an  *)
+(* ill-formed file is not for the property to say: the invocation is refused, or answered FOR THE FRAMEWORK THE FILE DECLARES.             *)
+Outcome(inv) ==
+  IF inv.file = "bincomment"
+  THEN (IF OutcomeOn(inv, "good") = "answer" THEN "answer_or_refusal" ELSE OutcomeOn(inv, "good"))
+  ELSE OutcomeOn(inv, inv.file)
 
 (* the shape of an answer on stdout once log lines (starting with "![") are set aside *)
 (* nlines: non-log lines; status: "YES" | "NO" | ""; wline: a witness line is present *)
